@@ -9,6 +9,7 @@ package harness
 
 import (
 	"context"
+	"errors"
 	"fmt"
 	"io"
 	"math/rand/v2"
@@ -950,7 +951,7 @@ func (cr *cliRun) await(st *Step) {
 		fired := e.sim.Faults["send-error"]+e.sim.Faults["recv-error"] > cr.faultBase
 		if !fired {
 			e.probe("client: injected fault position was never reached")
-			if err != nil && err != context.DeadlineExceeded {
+			if err != nil && !errors.Is(err, context.DeadlineExceeded) {
 				e.report("C14", "spurious-error", "AwaitConverged failed although no fault fired", err.Error(), false)
 			}
 			return
@@ -980,7 +981,7 @@ func (cr *cliRun) await(st *Step) {
 			e.probe("client: everything was answered before the fault was observed")
 			return
 		}
-		if err == context.DeadlineExceeded {
+		if errors.Is(err, context.DeadlineExceeded) {
 			if strings.Contains(cr.faultWhat, "(OK)") && strings.HasPrefix(cr.faultWhat, "recv") {
 				return // EOF from the server: nothing is recorded, the operations stay pending
 			}
@@ -1030,7 +1031,7 @@ func (cr *cliRun) await(st *Step) {
 			simrt.WaitUntil("await2-join", "AwaitConverged returns", 40*time.Second, func() bool { return done2 })
 			cancel2()
 		}
-		if err == nil || err == context.DeadlineExceeded {
+		if err == nil || errors.Is(err, context.DeadlineExceeded) {
 			mode := "RIB-ack mode"
 			if e.sc.Cfg.FIBAck {
 				mode = "FIB-ack mode"
